@@ -535,3 +535,35 @@ fn rc_as_ref_is_none(w: usize) -> bool {
     core::mem::forget(rc);
     r
 }
+
+/// {:p} of Rc / Snapshot / AtomicRc prints the address only (tag and timestamp invisible).
+struct Sink { buf: [u8; 24], n: usize }
+impl core::fmt::Write for Sink {
+    fn write_str(&mut self, s: &str) -> core::fmt::Result {
+        let b = s.as_bytes();
+        let mut i = 0;
+        while i < b.len() { if self.n < 24 { self.buf[self.n] = b[i]; } self.n += 1; i += 1; }
+        Ok(())
+    }
+}
+fn fmt_p<P: core::fmt::Pointer>(p: &P) -> ([u8; 24], usize) {
+    use core::fmt::Write;
+    let mut s = Sink { buf: [0; 24], n: 0 };
+    let _ = write!(s, "{:p}", *p);
+    (s.buf, s.n)
+}
+l2_harness! {
+#[kani::unwind(26)]
+fn c11_rc_pointer_fmt() {
+    let a: usize = kani::any();
+    kani::assume(a < 0x1_0000 && a & 7 == 0);                  // small addresses keep the digit loop short; nothing is dereferenced
+    let t: usize = kani::any();
+    let h: usize = kani::any();
+    kani::assume(t <= TAGM && h < 16);
+    let w = a | t | (h << STAMP_SHIFT);
+    let g = guard();
+    let (plain, dressed): (Rc<N>, Rc<N>) = (Rc::from_raw(unword(a)), Rc::from_raw(unword(w)));
+    assert!(fmt_p(&plain) == fmt_p(&dressed), "C11.fmt.rc_pointer_formatting_ignores_tag_and_timestamp");
+    assert!(fmt_p(&plain.snapshot(&g)) == fmt_p(&dressed.snapshot(&g)) && fmt_p(&plain) == fmt_p(&dressed.snapshot(&g)), "C11.fmt.snapshot_pointer_formatting_ignores_tag_and_timestamp");
+    core::mem::forget(plain); core::mem::forget(dressed);
+}}
